@@ -3300,8 +3300,9 @@ done:
 int
 GRendaccess(int32 riid)
 {
-    ri_info_t *ri_ptr; /* ptr to the image to work with */
-    int        ret_value = SUCCEED;
+    ri_info_t *ri_ptr;             /* ptr to the image to work with */
+    int        end_failed = FALSE; /* ending access to the image data failed */
+    int        ret_value  = SUCCEED;
 
     /* clear error stack and check validity of args */
     HEclear();
@@ -3330,7 +3331,10 @@ GRendaccess(int32 riid)
 
     /* Check if we should shut down the AID we've been holding open */
     if (!(ri_ptr->access > 0) && ri_ptr->img_aid != 0) {
-        Hendaccess(ri_ptr->img_aid);
+        /* this is where cached chunks / compressed data are flushed: a
+           failure is reported once the image ID has been released */
+        if (Hendaccess(ri_ptr->img_aid) == FAIL)
+            end_failed = TRUE;
         ri_ptr->img_aid = 0;
     } /* end if */
 
@@ -3342,6 +3346,9 @@ GRendaccess(int32 riid)
     /* Delete the atom for the RI ID */
     if (NULL == HAremove_atom(riid))
         HGOTO_ERROR(DFE_RINOTFOUND, FAIL);
+
+    if (end_failed)
+        HGOTO_ERROR(DFE_CANTENDACCESS, FAIL);
 
 done:
     return ret_value;
